@@ -26,6 +26,18 @@ CHECKS = {
         text='Exhaustive TLC model checking of the accept loop and handshake (fixed algorithm: invariants ServerAlive/OthersUndisturbed/Serves over all interleavings of 2 faulty clients x 62 fault plans and a late healthy client, liveness Serves for 1; the algorithm as written is rejected, as is each proposed fix left out). Every single-fault plan TLC enumerates is executed on a real server (first/middle/last byte offset of each step, FIN and RST, with/without the control connect; every byte offset in the thorough tier), plus sampled multi-fault sequences; after each fault: OS liveness of the server, a fresh RemoteWorker round trip (5 s hang bound) and the outcome of two healthy workers that were running.',
         note='Trusted: TLC, the kernel TCP stack on loopback (FIN = close(), RST = SO_LINGER 0), the tap (recorded bytes re-targeted to the replay server port, self-validated). The model treats client writes as atomic up to the next read (TCP buffering) and payloads as opaque. Sequences of >= 2 faults are sampled, not exhaustive.',
         design_ref='6/C11'),
+    'C18': dict(
+        engine='ServerCtx',
+        technique='TLA+ spec ServerCtx.tla (the server\'s context table and helper processes, one action per critical section: unpickle-before-duplicate-test, pop/wait/terminate on delete, lookup/forward on worker requests) checked by TLC as a refinement of the dictionary model of the property; request histories enumerated by TLC (simulation of length-8 histories over 3 ids) replayed on a real server with real RemoteContext / PersistentRemoteWorker(context=i) calls; TLC judges every real history (ServerJudge) and the real replies are compared with the model\'s',
+        text='Exhaustive TLC model checking of every request history (create / duplicate / delete / delete unknown / start worker / start in unknown context / call / wait) of length <= 7 over 3 ids (<= 8 with 3 workers in the thorough tier) against the dictionary model (refinement invariants after every request) plus the record operators C18_* on every history of length <= 5; the two mutant algorithms (delete without pop, no duplicate test) are rejected. 40 (600) TLC-simulated histories of length 8, selected for coverage, are played against a real server with hang-bounded real API calls; after each delete the workers of that registration are checked dead by API and OS; at the end server liveness and a fresh round trip.',
+        note='Trusted: TLC; the worker handshake inside a context is abstracted to one step here (C11 covers it). A worker request naming an unknown context is sent by a raw-socket client (the real constructor hangs there - C20). Histories of length 8 are sampled, not exhaustive, on the real server.',
+        design_ref='6/C18'),
+    'C12': dict(
+        engine='ServerStop',
+        technique='TLA+ spec ServerStop.tla (parent-side terminate(timeout=5, force) with its join time-out, the SIGTERM handler that kills `children` but not the contexts, the `finally` loop with its 1 s waits and forced kills, the context helper\'s own clean-up racing with the server\'s 1 s join, a worker start-up in progress) model-checked with TLC over every configuration of 0-4 children in 8 states x {terminate, SIGTERM} x 4 start-up phases; TLC-enumerated configurations are built on a real server and stopped; /proc is scanned for former descendants (found by an environment tag, so re-parented orphans count) and the parent-side accessors are read with hang bounds; TLC judges every real execution (ServerJudge) and the real outcome is compared with the model outcome',
+        text='Exhaustive TLC model checking (invariants Reaped / ParentsKnow / ErrorKind / NoParentBlock at every terminal state over all 75k configurations and all interleavings of time-outs, kills and clean-ups; liveness Reaped for <= 3 children) of the proposed algorithm; the algorithm as written is rejected (a context helper killed in the middle of its clean-up). 26 (300) configurations chosen from TLC\'s enumeration for balanced coverage are built on real servers, stopped with terminate() or SIGTERM (also while a scripted client is in the middle of the handshake), and observed: server gone, no former descendant left 3 s later, wait()/is_alive()/has_error/error of every parent-side worker with hang bounds.',
+        note='Trusted: TLC, /proc, the time abstraction of the model (a cooperative process that got the termination request exits before a 1 s time-out fires; the parent\'s 5 s join expires after 4 waited-out processes). The parent side of a start-up that races with the stop belongs to C20: the racing worker is a scripted client and only its reaping is judged. Real configurations are a selected sample of the enumerated space.',
+        design_ref='6/C12'),
 }
 
 MODEL_REQ = {'pworker': 'worker'}
@@ -33,8 +45,8 @@ MODEL_REQ = {'pworker': 'worker'}
 
 # ----------------------------------------------------------------------------- TLC helpers
 
-def _cfg(nf, fixes, plans='Plans_all', late='FALSE', inv=(), prop=None):
-    s = 'SPECIFICATION Spec\nCONSTANTS\n  NF = %d\n  Fixes <- %s\n  PlanSet <- %s\n  LateAfter = %s\n' % (nf, fixes, plans, late)
+def _cfg(nf, fixes, plans='Plans_all', late='FALSE', inv=(), prop=None, step='FALSE'):
+    s = 'SPECIFICATION Spec\nCONSTANTS\n  NF = %d\n  Fixes <- %s\n  PlanSet <- %s\n  LateAfter = %s\n  StepSend = %s\n' % (nf, fixes, plans, late, step)
     for i in inv:
         s += 'INVARIANT %s\n' % i
     if prop:
@@ -193,6 +205,8 @@ def run_c11(tier, replay):
     design.start('live', lambda: tlc.run('ServerMC', 'Server_live.cfg', workers=2, name='live', timeout=900))
     if tier == 'thorough':
         design.start('mc3', lambda: tlc.run('ServerMC', cfg_text=_cfg(3, 'Fix_all', 'Plans_core', inv=invs), workers=8, name='mc3', timeout=3000))
+    design.start('unreduced', lambda: {fx: tlc.run('ServerMC', cfg_text=_cfg(1, fx, late='TRUE', inv=('PathDump',), step='TRUE'), workers=2,
+                                                   name='unred' + fx, timeout=900) for fx in ('Fix_all', 'Fix_none')})
     design.start('wits', lambda: {w: tlc.run('ServerMC', cfg_text=_cfg(2, 'Fix_all', inv=(w,)), workers=1, name=w,
                                              must_complete=False, timeout=600) for w in wit})
     design.start('rejs', lambda: {fx: tlc.run('ServerMC', cfg_text=_cfg(1, fx, inv=invs, prop='Live_Serves'), workers=1,
@@ -200,47 +214,68 @@ def run_c11(tier, replay):
 
     # 1. TLC enumerates the fault placements (path dumps = relation Allowed: scenario -> outcomes),
     #    for the algorithm as proposed (all fixes) and as written (no fix); the tap records the streams
-    jobs = Jobs()
+    jobs, jobs2 = Jobs(), Jobs()
     jobs.start('rec', lambda: record(logdir))
     for nf in (1, 2):
         for fx in ('Fix_all', 'Fix_none'):
-            jobs.start('paths%d%s' % (nf, fx), lambda nf=nf, fx=fx: tlc.run(
+            (jobs if nf == 1 else jobs2).start('paths%d%s' % (nf, fx), lambda nf=nf, fx=fx: tlc.run(
                 'ServerMC', cfg_text=_cfg(nf, fx, late='TRUE', inv=('PathDump',)), workers=6, name='paths%d%s' % (nf, fx), timeout=900))
     res = jobs.wait()
     streams, pos, lens = res['rec']
     allowed = {'Fix_all': {}, 'Fix_none': {}}
-    for nf in (1, 2):
+
+    def take(nf, res_):
         for fx in ('Fix_all', 'Fix_none'):
-            r = res['paths%d%s' % (nf, fx)]
+            r = res_['paths%d%s' % (nf, fx)]
             if r.error or not r.tags.get('PATH'):
                 raise MachineryError('path dump NF=%d %s failed: %s\n%s' % (nf, fx, r.error, r.stdout[-1500:]))
             ev.add_tlc('path dump NF=%d %s (late client after the faults): scenario -> outcomes' % (nf, fx), r)
             allowed[fx].update(_allowed(r))
+    take(1, res)
     plans1 = sorted(tuple(json.loads(k)[0]) for k in allowed['Fix_all'] if len(json.loads(k)) == 1)
-    pairs = sorted(k for k in allowed['Fix_none'] if len(json.loads(k)) == 2)
 
-    # 2. scenarios: every single-fault plan at its byte offsets; sampled sequences of 2-3 faults
-    #    (half of them chosen among those the algorithm as written survives up to the last fault)
+    # 2. scenarios: every single-fault plan at its byte offsets (started as soon as the NF=1 dump is there);
+    #    then sampled sequences of 2-3 faults (half of them chosen among those the algorithm as written
+    #    survives up to the last fault)
     scen = c11_singles(plans1, lens, tier)
-    nseq = 16 if tier == 'quick' else 160
-    harmless = [p for p in plans1 if allowed['Fix_none'][json.dumps([list(p)])] == {('T', 'v:1', 'F')}]
-    for n in range(nseq):
-        k = 2 if n % 2 == 0 else 3
-        if n % 4 < 2 and harmless:
-            seq = [rng.choice(harmless) for _ in range(k - 1)] + [rng.choice(plans1)]
-        else:
-            seq = [tuple(x) for x in json.loads(rng.choice(pairs))] + ([rng.choice(plans1)] if k == 3 else [])
-        scen.append([c11_concrete(p, lens, rng) for p in seq])
-    tasks = [dict(id='s%d' % i, faults=f, streams=streams, pos=pos, logdir=logdir) for i, f in enumerate(scen)]
     box = {}
+
+    def mk_tasks(lst, off):
+        return [dict(id='s%d' % (off + i), faults=f, streams=streams, pos=pos, logdir=logdir) for i, f in enumerate(lst)]
 
     def replay_all():
         try:
-            box['recs'] = R.pool_map('scenario_c11', tasks, logdir, nproc=12)
+            box['recs'] = R.pool_map('scenario_c11', mk_tasks(scen, 0), logdir, nproc=12)
+            box['recs'] += R.pool_map('scenario_c11', mk_tasks(box['seqs'](), len(scen)), logdir, nproc=12)
         except BaseException as e:  # noqa
             box['err'] = e
+    nseq = 16 if tier == 'quick' else 160
+    ready = threading.Event()
+
+    def seqs():
+        ready.wait()
+        return box['seqlist']
+    box['seqs'] = seqs
     rt = threading.Thread(target=replay_all, daemon=True)
     rt.start()
+    try:
+        take(2, jobs2.wait())
+        pairs = sorted(k for k in allowed['Fix_none'] if len(json.loads(k)) == 2)
+        harmless = [p for p in plans1 if allowed['Fix_none'][json.dumps([list(p)])] == {('T', 'v:1', 'F')}]
+        sl = []
+        for n in range(nseq):
+            k = 2 if n % 2 == 0 else 3
+            if n % 4 < 2 and harmless:
+                seq = [rng.choice(harmless) for _ in range(k - 1)] + [rng.choice(plans1)]
+            else:
+                seq = [tuple(x) for x in json.loads(rng.choice(pairs))] + ([rng.choice(plans1)] if k == 3 else [])
+            sl.append([c11_concrete(p, lens, rng) for p in seq])
+        box['seqlist'] = sl
+    except BaseException:
+        box['seqlist'] = []
+        raise
+    finally:
+        ready.set()
 
     # 3. collect the design runs
     dres = design.wait()
@@ -270,6 +305,16 @@ def run_c11(tier, replay):
         if fx == 'Fix_none':
             cex = [l for l in rp.trace if l.startswith(('State', '/\\ spc', '/\\ cpc', '/\\ dopen'))][:40]
     ev.cov['prefix_models_rejected'] = rejected
+    # reduction check: with the client's writes arriving piecewise (unreduced) the scenario -> outcome relation is the same
+    for fx in ('Fix_all', 'Fix_none'):
+        ru = dres['unreduced'][fx]
+        ev.add_tlc('unreduced NF=1 %s (client writes arrive piecewise): same scenario -> outcome relation required' % fx, ru)
+        au = _allowed(ru)
+        red = {k: v for k, v in allowed[fx].items() if len(json.loads(k)) == 1}
+        if ru.error or au != red:
+            diff = [k for k in set(au) | set(red) if au.get(k) != red.get(k)][:3]
+            raise MachineryError('reduction check failed (%s): atomic client writes change the outcomes of %s' % (fx, diff))
+    ev.cov['reduction_check'] = 'atomic client writes vs piecewise writes: identical scenario->outcome relation at NF=1 (both algorithms)'
 
     rt.join()
     if 'err' in box:
@@ -342,7 +387,488 @@ def run_c11(tier, replay):
     return finish(ev, violations, T.s(), drift)
 
 
+# ----------------------------------------------------------------------------- C18
+
+def _ctx_cfg(ids, maxlen, maxw, hist='FALSE', pop='TRUE', dup='TRUE', inv=(), spec=True):
+    s = ('SPECIFICATION Spec\n' if spec else 'INIT Init\nNEXT Next\n')
+    s += 'CONSTANTS\n  Ids <- %s\n  MaxLen = %d\n  MaxW = %d\n  Hist = %s\n  PopOnDelete = %s\n  DupCheck = %s\n' % (ids, maxlen, maxw, hist, pop, dup)
+    for i in inv:
+        s += 'INVARIANT %s\n' % i
+    return s + 'CHECK_DEADLOCK FALSE\n'
+
+
+C18_REF = ('TypeOK', 'Ref_Table', 'Ref_Reply', 'Ref_Workers', 'Ref_ServerUp', 'Ref_HelperAlive')
+C18_REC = ('Inv_Table', 'Inv_Duplicate', 'Inv_First', 'Inv_Target', 'Inv_Delete', 'Inv_Reusable', 'Inv_Unknown')
+
+
+def c18_features(hist, reps):
+    """What a history exercises (used only to select which TLC-generated histories are replayed)."""
+    f = set()
+    dup_ids, deleted, started_in = set(), set(), {}
+    registered = set()
+    for q, a in zip(hist, reps):
+        op = q['op']
+        if op == 'create':
+            if a == 'ValueError':
+                f.add('dup')
+                dup_ids.add(q['id'])
+            else:
+                if q['id'] in deleted:
+                    f.add('reuse')
+                registered.add(q['id'])
+                dup_ids.discard(q['id'])
+            if len(registered) >= 2:
+                f.add('two-contexts')
+        elif op == 'delete':
+            if q['k'] == 'F':
+                f.add('delete-unknown')
+            else:
+                live = [w for w, i in started_in.items() if i == q['id']]
+                f.add('delete-with-workers' if live else 'delete-empty')
+                for w in live:
+                    del started_in[w]
+                registered.discard(q['id'])
+                deleted.add(q['id'])
+        elif op == 'start':
+            if a == 'started':
+                started_in[q['w']] = q['id']
+                f.add('start')
+                if q['id'] in dup_ids:
+                    f.add('start-after-dup')
+            else:
+                f.add('start-unknown')
+        elif op == 'call':
+            if a.startswith('v:'):
+                f.add('call')
+                if started_in.get(q['w']) in dup_ids:
+                    f.add('call-after-dup')
+                if started_in.get(q['w']) in deleted:
+                    f.add('call-in-reused')
+            else:
+                f.add('call-dead')
+        elif op == 'wait':
+            f.add('wait')
+            started_in.pop(q['w'], None)
+    return f
+
+
+def c18_select(paths, k, rng):
+    """Greedy coverage-balanced choice of k histories out of TLC's."""
+    count = collections.Counter()
+    pool = list(paths)
+    rng.shuffle(pool)
+    feats = [c18_features(h, r) for h, r, _ in pool]
+    chosen, used = [], set()
+    for _ in range(min(k, len(pool))):
+        best, bs = None, -1.0
+        for i, fs in enumerate(feats):
+            if i in used:
+                continue
+            sc = sum(1.0 / (1 + count[x]) for x in fs)
+            if sc > bs:
+                best, bs = i, sc
+        used.add(best)
+        chosen.append(pool[best])
+        count.update(feats[best])
+    return chosen, dict(count)
+
+
+def c18_signature(rec, clauses):
+    h, reps = rec['scn']['hist'], rec['obs']['rep']
+    model = rec.get('model_rep') or []
+    for n, q in enumerate(h):
+        got = reps[n] if n < len(reps) else 'missing'
+        if n < len(model) and got != model[n]:
+            return 'C18|%s|op=%s|known=%s|got=%s' % ('+'.join(sorted(clauses)), q['op'], q['k'], got.split(':')[0] if got.startswith('v:') else got)
+    if any(rec['obs']['live']):
+        return 'C18|%s|op=delete|workers-left-alive' % '+'.join(sorted(clauses))
+    return 'C18|%s|srv_alive=%s|fresh=%s' % ('+'.join(sorted(clauses)), rec['obs']['srv_alive'], [x['got'] for x in rec['obs']['fresh']])
+
+
+def run_c18(tier, replay):
+    T = Timer()
+    ev = Evidence('C18', tier)
+    rng = random.Random(seed())
+    logdir = sub_scratch('c18-logs')
+    violations, drift = [], []
+
+    if replay is not None:
+        streams, pos, lens = record(logdir)
+        rec = R.scenario_c18(dict(id='replay', hist=replay['replay']['hist'], upayload=streams['uctxworker'][1],
+                                  upos=[p for p in pos['uctxworker'] if p[0] == 1], logdir=logdir))
+        fails, _ = tlc.judge('ServerJudge', [{k: rec[k] for k in ('id', 'prop', 'scn', 'obs')}], name='replay')
+        print('replayed:', json.dumps({'scn': rec['scn'], 'obs': rec['obs'], 'notes': rec['notes']}))
+        for _, clause in fails:
+            print('VIOLATION property=C18 replay=(given) clause=%s' % clause)
+        return 1 if fails else 0
+
+    # 0. the design (concurrently): refinement of the dictionary model over every history; record operators
+    #    on every short history; witnesses; mutant algorithms rejected
+    wit = ['W_NoDuplicate', 'W_NoOrphan', 'W_NoReuse', 'W_NoUnknownStart', 'W_NoUnknownDelete', 'W_NoDeleteWithWorkers',
+           'W_NoCallAfterDup', 'W_NoTwoContexts']
+    design = Jobs()
+    big = ('Ids3', 8, 3) if tier == 'thorough' else ('Ids3', 7, 2)
+    design.start('mc', lambda: tlc.run('ServerCtxMC', cfg_text=_ctx_cfg(*big, inv=C18_REF), workers=8, name='ctxmc', timeout=3000))
+    design.start('hist', lambda: tlc.run('ServerCtxMC', 'ServerCtx_hist.cfg', workers=4, name='ctxhist', timeout=1500))
+    design.start('wits', lambda: {w: tlc.run('ServerCtxMC', cfg_text=_ctx_cfg('Ids2', 6, 2, inv=(w,)), workers=1, name=w,
+                                             must_complete=False, timeout=600) for w in wit})
+    design.start('muts', lambda: {m: tlc.run('ServerCtxMC', cfg_text=_ctx_cfg('Ids2', 5, 2, hist='TRUE', inv=C18_REC, **kw), workers=1,
+                                             name='mut' + m, must_complete=False, timeout=600)
+                                  for m, kw in (('no_pop', {'pop': 'FALSE'}), ('no_dupcheck', {'dup': 'FALSE'}))})
+
+    # 1. TLC generates the histories (simulation: length 8, 3 ids, 3 workers; the record operators are
+    #    evaluated on every simulated state); the tap records the bytes of a worker-in-context request
+    jobs = Jobs()
+    jobs.start('rec', lambda: record(logdir))
+    nsim = 6000 if tier == 'quick' else 40000
+    jobs.start('sim', lambda: tlc.run('ServerCtxMC', cfg_text=_ctx_cfg('Ids3', 8, 3, hist='TRUE', inv=('PathDump',) + C18_REC, spec=False),
+                                      workers=1, simulate='num=%d' % nsim, depth=45, seed=seed(), name='ctxsim',
+                                      must_complete=False, timeout=1500))
+    res = jobs.wait()
+    streams, pos, lens = res['rec']
+    rs = res['sim']
+    if rs.error or not rs.tags.get('PATH'):
+        raise MachineryError('simulation of context histories failed: %s\n%s' % (rs.error, rs.stdout[-1500:]))
+    ev.add_tlc('simulation: %d behaviours of length-8 histories over 3 ids / 3 workers, record operators checked on each' % nsim, rs)
+    paths = {}
+    for h, r_, lv in rs.tags['PATH']:
+        paths[h] = (json.loads(h), json.loads(r_), json.loads(lv))
+    k = 40 if tier == 'quick' else 600
+    chosen, featcount = c18_select(paths.values(), k, rng)
+    tasks = [dict(id='h%d' % i, hist=h, upayload=streams['uctxworker'][1], upos=[p for p in pos['uctxworker'] if p[0] == 1], logdir=logdir)
+             for i, (h, _, _) in enumerate(chosen)]
+    recs = R.pool_map('scenario_c18', tasks, logdir, nproc=12)
+    for x, (h, mr, ml) in zip(recs, chosen):
+        x['model_rep'], x['model_live'] = mr, ml
+
+    # 2. collect the design runs
+    dres = design.wait()
+    r = dres['mc']
+    ev.add_tlc('exhaustive: every history of length <= %d over %s with <= %d workers; refinement of the dictionary model' % (big[1], big[0], big[2]), r)
+    if r.error:
+        raise MachineryError('ServerCtx.tla violates its refinement invariants: %s\n%s' % (r.error, '\n'.join(r.trace[:80])))
+    r = dres['hist']
+    ev.add_tlc('exhaustive with history: record operators C18_* on every history of length <= 5 over 2 ids', r)
+    if r.error:
+        raise MachineryError('ServerCtx.tla violates the C18 operators: %s\n%s' % (r.error, '\n'.join(r.trace[:80])))
+    for w in wit:
+        if dres['wits'][w].error != 'invariant:' + w:
+            raise MachineryError('witness %s not reachable (vacuous model): %s' % (w, dres['wits'][w].error))
+    ev.cov['witnesses'] = {w: 'reached' for w in wit}
+    ev.cov['mutant_models_rejected'] = {}
+    for m, rm in dres['muts'].items():
+        if not (rm.error or '').startswith('invariant:'):
+            raise MachineryError('the mutant algorithm %s is not rejected by the model checker (%s)' % (m, rm.error))
+        ev.cov['mutant_models_rejected'][m] = rm.error
+
+    # 3. TLC judges every real history with the C18 operators
+    jrecs = [{'id': x['id'], 'prop': 'C18', 'scn': x['scn'], 'obs': x['obs']} for x in recs]
+    fails, rj = tlc.judge('ServerJudge', jrecs, name='judge18')
+    ev.add_tlc('judge: C18 operators on %d real histories' % len(recs), rj, role='judge')
+    byid = collections.defaultdict(list)
+    for rid, clause in fails:
+        byid[rid].append(clause)
+    recmap = {x['id']: x for x in recs}
+    for rid, clauses in byid.items():
+        x = recmap[rid]
+        sig = c18_signature(x, clauses)
+        what = ('%s violated by history %s: replies %s (dictionary model: %s), alive after deletes %s, server alive=%s, fresh=%s%s'
+                % (','.join(sorted(clauses)), ['%s(%s)' % (q['op'], q['id'] or 'w%d' % q['w']) for q in x['scn']['hist']],
+                   x['obs']['rep'], x['model_rep'], x['obs']['live'], x['obs']['srv_alive'], [y['got'] for y in x['obs']['fresh']],
+                   ('; server log: ' + x['notes']['server_error']) if x['notes'].get('server_error') else ''))
+        violations.append(Violation('C18', sig, what, {'kind': 'C18', 'hist': x['scn']['hist']}))
+
+    # 4. conformance: replies, survivors and the number of helper processes as in the model's behaviour
+    nconf = 0
+    for x in recs:
+        ok = x['obs']['rep'] == x['model_rep'] and x['obs']['live'] == x['model_live'] and x['obs']['srv_alive'] == 'T'
+        regs = len(set(q['id'] for q, a in zip(x['scn']['hist'], x['model_rep']) if q['op'] == 'create' and a == 'ok')
+                   - set())  # upper bound below uses the replay of the dictionary
+        d = {}
+        for q, a in zip(x['scn']['hist'], x['model_rep']):
+            if q['op'] == 'create' and a == 'ok':
+                d[q['id']] = 1
+            elif q['op'] == 'delete':
+                d.pop(q['id'], None)
+        orphans = sum(1 for a in x['model_rep'] if a == 'ValueError')
+        hl = x['notes']['helpers']
+        if ok and hl >= 0 and not (len(d) <= hl <= len(d) + orphans):
+            ok = False
+        if ok:
+            nconf += 1
+        elif x['id'] not in byid and len(drift) < 4:
+            drift.append('real server deviates from ServerCtx.tla on history %s: replies %s vs model %s; alive %s vs %s; helper processes %s (model %d..%d)'
+                         % ([(q['op'], q['id'] or q['w']) for q in x['scn']['hist']], x['obs']['rep'], x['model_rep'], x['obs']['live'], x['model_live'],
+                            hl, len(d), len(d) + orphans))
+    # soft observation (not part of the property): a refused duplicate leaves its freshly built helper process behind
+    def regs_end(x):
+        d = set()
+        for q, a in zip(x['scn']['hist'], x['obs']['rep']):
+            if q['op'] == 'create' and a == 'ok':
+                d.add(q['id'])
+            elif q['op'] == 'delete':
+                d.discard(q['id'])
+        return len(d)
+    ev.cov['histories_with_orphan_helper_process'] = sum(1 for x in recs if x['notes']['helpers'] > regs_end(x))
+    ev.cov['traces_validated_against_impl'] = nconf
+    ev.cov['evaluations'] = len(recs)
+    ev.cov['distinct_nontrivial'] = len(set(json.dumps(x['scn']['hist']) for x in recs if len(c18_features(x['scn']['hist'], x['model_rep'])) >= 3))
+    ev.cov['rule'] = ('each case = one request history of length 8 over ids 1..3 (create / duplicate / delete / delete unknown / start / start in unknown context / call / wait) '
+                      'generated by TLC simulation of ServerCtx.tla (%d distinct histories), %d of them selected greedily for balanced coverage of the features %s and played on a real server; '
+                      'non-trivial = the history exercises at least 3 different features' % (len(paths), len(recs), sorted(featcount)))
+    ev.cov['feature_counts'] = featcount
+    ev.cov['exhaustive'] = False
+    ev.cov['histories_generated'] = len(paths)
+    for x in recs[:3] + recs[-1:]:
+        ev.sample({'hist': [[q['op'], q['id'], q['tok'], q['w'], q['x'], q['k']] for q in x['scn']['hist']], 'obs': x['obs'], 'helpers': x['notes']['helpers']})
+    ev.assumptions += ['requests of one history are issued sequentially by one client (each API call returns before the next is made)',
+                       'the worker handshake inside a context is one step of this model (its faults are C11\'s subject)',
+                       'a worker request naming an unknown context is sent by a raw-socket client; its outcome is read at the end of the history (any byte received = a reply)',
+                       'real histories are sampled from TLC\'s simulation (seeded), the model is exhaustive up to length 7 (8 in the thorough tier)']
+    return finish(ev, violations, T.s(), drift)
+
+
+# ----------------------------------------------------------------------------- C12
+
+def _stop_cfg(maxkids, racers='Racers_all', ctxterm='TRUE', inv=(), prop=None, dupterm=None, pkill=None):
+    s = ('SPECIFICATION Spec\nCONSTANTS\n  MaxKids = %d\n  KidStates <- States_all\n  Racers <- %s\n  CtxTerm = %s\n  DupTerm = %s\n  ParentKill = %s\n'
+         % (maxkids, racers, ctxterm, dupterm or ctxterm, pkill or dupterm or ctxterm))
+    for i in inv:
+        s += 'INVARIANT %s\n' % i
+    if prop:
+        s += 'PROPERTY %s\n' % prop
+    return s + 'CHECK_DEADLOCK FALSE\n'
+
+
+C12_INV = ('TypeOK', 'Inv_Reaped', 'Inv_ParentsKnow', 'Inv_ErrorKind', 'Inv_NoBlock')
+PERSISTENT_ONLY = ('idle', 'inctx', 'inctx-coop', 'inctx-swallow')
+
+
+def _c12_obs_key(obs, scn_kids):
+    """Comparable summary: server gone, survivors, and what each real parent saw."""
+    ks = []
+    for k, o in zip(scn_kids, obs['kids']):
+        if k.get('parent', 'T') == 'T' and k['state'] not in ('starting', 'orphan'):
+            ks.append((o['wait'], o['alive'], o['has_error'], o['error'], o['blocked']))
+    return (obs['srv_dead'], obs['left'], tuple(ks))
+
+
+def _c12_allowed(r):
+    out = collections.defaultdict(set)
+    for how, racer, kids, obs in r.tags.get('PATH', []):
+        kl = json.loads(kids)
+        out[(how, racer, tuple(kl))].add(_c12_obs_key(json.loads(obs), [{'state': x} for x in kl]))
+    return out
+
+
+def c12_select(confs, k, rng):
+    """Greedy coverage-balanced choice of k configurations out of TLC's enumeration."""
+    pool = sorted(confs)
+    rng.shuffle(pool)
+
+    def feats(c):
+        how, racer, kids = c
+        f = set([('how', how), ('racer', racer, how), ('n', len(kids))])
+        for x in kids:
+            f.add((x, how))
+        if len(set(kids)) >= 3:
+            f.add(('mixed', how))
+        if sum(1 for x in kids if x in ('swallow', 'inctx-swallow')) >= 3:
+            f.add('many-swallow')
+        if kids.count('inctx-swallow') >= 2:
+            f.add(('two-swallow-in-ctx', how))
+        if 'inctx-swallow' in kids and racer != 'none':
+            f.add(('ctx-swallow+racer', racer))
+        if 'orphan' in kids:
+            f.add(('orphan+racer', racer, how))
+        return f
+    count = collections.Counter()
+    fs = [feats(c) for c in pool]
+    chosen, used = [], set()
+    for _ in range(min(k, len(pool))):
+        best, bs = None, -1.0
+        for i, f in enumerate(fs):
+            if i in used:
+                continue
+            sc = sum(1.0 / (1 + count[x]) for x in f)
+            if sc > bs:
+                best, bs = i, sc
+        used.add(best)
+        chosen.append(pool[best])
+        count.update(fs[best])
+    # the fault classes the model singles out (a helper killed during its clean-up; an exit blocked by an
+    # orphan helper after the one SIGTERM was used up) are always exercised
+    for must in (('inctx-swallow', 'terminate'), ('orphan+racer', 'addr', 'terminate'), ('two-swallow-in-ctx', 'terminate')):
+        if not count[must]:
+            for i, f in enumerate(fs):
+                if must in f and i not in used:
+                    used.add(i)
+                    chosen.append(pool[i])
+                    count.update(f)
+                    break
+    return chosen
+
+
+def c12_signature(rec, clauses):
+    kids, obs = rec['scn']['kids'], rec['obs']['kids']
+    bad = '-'
+    for k, o in zip(kids, obs):
+        if o['os_dead'] != 'T' or o['blocked'] == 'T' or (k['parent'] == 'T' and k['state'] != 'finished' and
+                                                         (o['wait'] != 'T' or o['alive'] != 'F' or o['has_error'] != 'T' or o['error'] not in ('WTE', 'None'))):
+            bad = k['state']
+            break
+    if bad == '-':
+        for k, o in zip(kids, obs):
+            if k['parent'] == 'T' and k['state'] in ('coop', 'idle', 'inctx', 'inctx-coop') and o['error'] != 'WTE' and 'C12_ErrorKind' in clauses:
+                bad = k['state'] + ':error=' + o['error']
+                break
+    if bad == '-' and rec['obs']['srv_dead'] != 'T':
+        bad = 'server-not-gone' + ('+orphan-helper' if any(k['state'] == 'orphan' for k in kids) else '')
+    return 'C12|%s|how=%s|racer=%s|kid=%s|left=%s' % ('+'.join(sorted(clauses)), rec['scn']['how'], rec['scn']['racer'], bad,
+                                                   '0' if rec['obs']['left'] == 0 else '>0')
+
+
+def run_c12(tier, replay):
+    T = Timer()
+    ev = Evidence('C12', tier)
+    rng = random.Random(seed())
+    logdir = sub_scratch('c12-logs')
+    violations, drift = [], []
+
+    if replay is not None:
+        streams, pos, lens = record(logdir)
+        rp = replay['replay']
+        rec = R.scenario_c12(dict(id='replay', how=rp['how'], kids=rp['kids'], racer=rp.get('racer', 'none'), streams=streams, pos=pos, logdir=logdir))
+        fails, _ = tlc.judge('ServerJudge', [{k: rec[k] for k in ('id', 'prop', 'scn', 'obs')}], name='replay')
+        print('replayed:', json.dumps({'scn': rec['scn'], 'obs': rec['obs'], 'notes': rec['notes']}))
+        for _, clause in fails:
+            print('VIOLATION property=C12 replay=(given) clause=%s signature=%s' % (clause, c12_signature(rec, [clause])))
+        return 1 if fails else 0
+
+    # 0. the design (concurrently): exhaustive invariants for 0..4 children, liveness for 0..3, witnesses,
+    #    rejection of the algorithm as written
+    wit = ['W_NoKillHelper', 'W_NoJoinTimeout', 'W_NoHalfStarted', 'W_NoGracefulCtx', 'W_NoForced', 'W_NoExitHang', 'W_NoSignalUsedUp']
+    design = Jobs()
+    design.start('mc', lambda: tlc.run('ServerStopMC', 'ServerStop_mc.cfg', workers=8, name='stopmc', timeout=3000))
+    design.start('live', lambda: tlc.run('ServerStopMC', 'ServerStop_live.cfg', workers=4, name='stoplive', timeout=3000))
+    design.start('wits', lambda: {w: tlc.run('ServerStopMC', cfg_text=_stop_cfg(2, inv=(w,)), workers=1, name=w,
+                                             must_complete=False, timeout=600) for w in wit})
+    design.start('prefix', lambda: {v: tlc.run('ServerStopMC', cfg_text=_stop_cfg(2, 'Racers_all', v[0], inv=C12_INV, prop='Live_Reaped', dupterm=v[1], pkill=v[2]),
+                                               workers=1, name='stopprefix%s%s%s' % v, must_complete=False, timeout=600)
+                                    for v in (('FALSE', 'FALSE', 'FALSE'), ('FALSE', 'TRUE', 'TRUE'), ('TRUE', 'FALSE', 'FALSE'))})
+
+    # 1. TLC enumerates configurations and their outcomes (proposed algorithm and algorithm as written)
+    jobs = Jobs()
+    jobs.start('rec', lambda: record(logdir))
+    dumps = [(4, 'Racers_all')] if tier == 'thorough' else [(4, 'Racers_none'), (2, 'Racers_all')]
+    # (CtxTerm, DupTerm, ParentKill): proposed; as written; the tree after the committed fixes; one fix at a time
+    variants = (('TRUE', 'TRUE', 'TRUE'), ('FALSE', 'FALSE', 'FALSE'), ('TRUE', 'FALSE', 'TRUE'), ('TRUE', 'FALSE', 'FALSE'), ('FALSE', 'TRUE', 'TRUE'))
+    for mk, rc in dumps:
+        for ct, dt, pk in variants:
+            jobs.start('p%d%s%s%s%s' % (mk, rc, ct, dt, pk), lambda mk=mk, rc=rc, ct=ct, dt=dt, pk=pk: tlc.run(
+                'ServerStopMC', cfg_text=_stop_cfg(mk, rc, ct, inv=('PathDump',), dupterm=dt, pkill=pk), workers=3,
+                name='stoppaths%d%s%s%s%s' % (mk, rc, ct, dt, pk), timeout=3000))
+    res = jobs.wait()
+    streams, pos, lens = res['rec']
+    allowed = {'TRUE': collections.defaultdict(set), 'FALSE': collections.defaultdict(set)}
+    for mk, rc in dumps:
+        for ct, dt, pk in variants:
+            r = res['p%d%s%s%s%s' % (mk, rc, ct, dt, pk)]
+            if r.error or not r.tags.get('PATH'):
+                raise MachineryError('path dump of ServerStop failed: %s\n%s' % (r.error, r.stdout[-1500:]))
+            ev.add_tlc('path dump MaxKids=%d %s CtxTerm=%s DupTerm=%s ParentKill=%s: configuration -> outcomes' % (mk, rc, ct, dt, pk), r)
+            for kk, vv in _c12_allowed(r).items():
+                allowed['TRUE' if (ct, dt, pk) == ('TRUE', 'TRUE', 'TRUE') else 'FALSE'][kk] |= vv
+    confs = sorted(allowed['TRUE'])
+    k = 26 if tier == 'quick' else 300
+    chosen = c12_select(confs, k, rng)
+    tasks = []
+    for i, (how, racer, kids) in enumerate(chosen):
+        kl = [dict(state=x, persistent=(x in PERSISTENT_ONLY) or (x != 'orphan' and rng.random() < 0.5)) for x in kids]
+        if racer != 'none':
+            kl = kl + [dict(state='starting', persistent=False)]
+        tasks.append(dict(id='c%d' % i, how=how, kids=kl, racer=racer, streams=streams, pos=pos, logdir=logdir))
+    recs = R.pool_map('scenario_c12', tasks, logdir, nproc=12, task_timeout=240)
+
+    # 2. collect the design runs
+    dres = design.wait()
+    r = dres['mc']
+    ev.add_tlc('exhaustive: 0..4 children x 8 states x {terminate, sigterm} x 4 start-up phases (proposed algorithm)', r)
+    if r.error:
+        raise MachineryError('ServerStop.tla violates its own properties: %s\n%s' % (r.error, '\n'.join(r.trace[:80])))
+    r = dres['live']
+    ev.add_tlc('0..3 children with PROPERTY Live_Reaped under weak fairness (proposed algorithm)', r)
+    if r.error:
+        raise MachineryError('ServerStop.tla violates liveness: %s' % r.error)
+    for w in wit:
+        if dres['wits'][w].error != 'invariant:' + w:
+            raise MachineryError('witness %s not reachable (vacuous model): %s' % (w, dres['wits'][w].error))
+    ev.cov['witnesses'] = {w: 'reached' for w in wit}
+    ev.cov['prefix_models_rejected'] = {}
+    for v, rp_ in dres['prefix'].items():
+        if not (rp_.error or '').startswith(('invariant:', 'temporal')):
+            raise MachineryError('the algorithm with CtxTerm=%s DupTerm=%s ParentKill=%s is not rejected by the model checker (%s)' % (v[0], v[1], v[2], rp_.error))
+        ev.cov['prefix_models_rejected']['CtxTerm=%s,DupTerm=%s,ParentKill=%s' % v] = rp_.error
+    rp = dres['prefix'][('FALSE', 'FALSE', 'FALSE')]
+
+    # 3. TLC judges every real execution with the C12 operators
+    jrecs = [{'id': x['id'], 'prop': 'C12', 'scn': x['scn'], 'obs': x['obs']} for x in recs]
+    fails, rj = tlc.judge('ServerJudge', jrecs, name='judge12')
+    ev.add_tlc('judge: C12 operators on %d real executions' % len(recs), rj, role='judge')
+    byid = collections.defaultdict(list)
+    for rid, clause in fails:
+        byid[rid].append(clause)
+    recmap = {x['id']: x for x in recs}
+    for rid, clauses in byid.items():
+        x = recmap[rid]
+        sig = c12_signature(x, clauses)
+        what = ('%s violated: server with children %s%s stopped by %s: server gone=%s (stop call: %s, %.1f s), %d former descendant(s) alive 3 s later %s; parents saw %s'
+                % (','.join(sorted(clauses)), [kk['state'] + ('/persistent' if kk['persistent'] == 'T' else '') for kk in x['scn']['kids']],
+                   (' and a start-up in phase ' + x['scn']['racer']) if x['scn']['racer'] != 'none' else '', x['scn']['how'],
+                   x['obs']['srv_dead'], x['notes']['stop'], x['notes'].get('stop_s', -1), x['obs']['left'], x['notes']['left_pids'],
+                   [(o['wait'], o['alive'], o['has_error'], o['error'], 'blocked' if o['blocked'] == 'T' else '') for o in x['obs']['kids']]))
+        violations.append(Violation('C12', sig, what, {'kind': 'C12', 'how': x['scn']['how'], 'racer': x['scn']['racer'],
+                                                      'kids': [dict(state=kk['state'], persistent=kk['persistent'] == 'T') for kk in x['scn']['kids']]}))
+
+    # 4. conformance
+    conf = collections.Counter()
+    for x in recs:
+        key = (x['scn']['how'], x['scn']['racer'], tuple(kk['state'] for kk in x['scn']['kids'] if kk['state'] != 'starting'))
+        s_ = _c12_obs_key(x['obs'], x['scn']['kids'])
+        if s_ in allowed['TRUE'].get(key, ()):
+            conf['as-proposed'] += 1
+        elif s_ in allowed['FALSE'].get(key, ()):
+            conf['as-written'] += 1
+        else:
+            conf['drift'] += 1
+            if len(drift) < 4:
+                drift.append('real server deviates from ServerStop.tla: config %s real outcome %s; model allows %s (proposed) / %s (as written or partly fixed)'
+                             % (key, s_, sorted(allowed['TRUE'].get(key, ()))[:3], sorted(allowed['FALSE'].get(key, ()))[:3]))
+    ev.cov['traces_validated_against_impl'] = conf['as-proposed'] + conf['as-written']
+    ev.cov['evaluations'] = len(recs)
+    ev.cov['distinct_nontrivial'] = len(set((x['scn']['how'], x['scn']['racer'], tuple((kk['state'], kk['persistent']) for kk in x['scn']['kids']))
+                                            for x in recs if any(kk['state'] not in ('finished', 'starting') for kk in x['scn']['kids']) and x['notes'].get('before', 0) > 0))
+    ev.cov['rule'] = ('each case = (children in their states, one-shot/persistent, terminate()/SIGTERM, phase of a racing start-up) built on its own real server; '
+                      'configurations enumerated by TLC (%d), %d selected greedily for balanced coverage of (state, stop kind), racer phase, number of children, mixtures; '
+                      'non-trivial = at least one child was alive at the stop and the server had live descendants' % (len(confs), len(recs)))
+    ev.cov['exhaustive'] = False
+    ev.cov['conformance_counts'] = dict(conf)
+    ev.cov['configurations_enumerated'] = len(confs)
+    for x in recs[:3] + recs[-2:]:
+        ev.sample({'scn': x['scn'], 'obs': x['obs'], 'stop_s': x['notes'].get('stop_s')})
+    ev.sample({'tlc_counterexample_of_the_algorithm_as_written': [l for l in rp.trace if l.startswith(('State', '/\\ spc', '/\\ kid', '/\\ hst', '/\\ ost', '/\\ how'))][:50]})
+    ev.assumptions += ['time abstraction: a process that reacts to the termination request exits before a 1 s time-out fires; every swallowing process costs its waiter one unit; the parent\'s join(5) expires after 4 units or when the server is blocked',
+                       'former descendants are found by an environment tag (VF_SCN) inherited through spawn; multiprocessing resource trackers are not counted as workers',
+                       'the worker whose start-up races with the stop is a scripted client (no parent-side object; its parent side is C20\'s subject)',
+                       '"shortly afterwards" = 3 s after the server process is gone; parent-side calls are bounded by 5-8 s']
+    return finish(ev, violations, T.s(), drift)
+
+
 def run(prop, tier, replay=None):
     if prop == 'C11':
         return run_c11(tier, replay)
+    if prop == 'C12':
+        return run_c12(tier, replay)
+    if prop == 'C18':
+        return run_c18(tier, replay)
     raise MachineryError('unknown property for this driver: ' + prop)
